@@ -31,6 +31,8 @@ pub struct RefResult {
     pub loop_states: Vec<Vec<(u64, i64)>>,
     /// the same keyed by the path of the loop step (outermost loops only)
     pub loop_states_by_path: BTreeMap<Vec<usize>, Vec<(u64, i64)>>,
+    /// rounds executed by a nested loop in each round of its enclosing loop (key: inner loop path)
+    pub inner_rounds: BTreeMap<Vec<usize>, Vec<usize>>,
     /// loops whose body output is schedule dependent (e.g. zip of unordered streams)
     pub unpredictable_loops: std::collections::BTreeSet<Vec<usize>>,
     /// streams whose content is schedule dependent (propagated taint)
@@ -148,11 +150,11 @@ pub fn eval_gb(form: GbForm, agg: AggFn, input: &[E]) -> Vec<E> {
                 out.push(agg_e(k, (avg * 1024.0).round() as i64, 0));
             }
             GbForm::MinEl => {
-                let m = es.iter().min_by_key(|e| (e.v, e.id)).unwrap();
+                let m = es.iter().min_by_key(|e| (e.v, e.id, e.ts)).unwrap();
                 out.push(E { key: k, ..(*m).clone() });
             }
             GbForm::MaxEl => {
-                let m = es.iter().max_by_key(|e| (e.v, e.id)).unwrap();
+                let m = es.iter().max_by_key(|e| (e.v, e.id, e.ts)).unwrap();
                 out.push(E { key: k, ..(*m).clone() });
             }
             GbForm::RichCounter => {
@@ -239,6 +241,7 @@ impl<'a> Interp<'a> {
                 loop_states: vec![],
                 loop_states_by_path: BTreeMap::new(),
                 unpredictable_loops: Default::default(),
+                inner_rounds: BTreeMap::new(),
                 notes: vec![],
             },
         };
@@ -564,6 +567,7 @@ impl<'a> Interp<'a> {
             }
         }
         self.res.loop_rounds.push(rounds);
+        self.res.inner_rounds.entry(lpath.to_vec()).or_default().push(rounds);
         self.res.loop_states_by_path.insert(lpath.to_vec(), states.clone());
         self.res.loop_states.push(states);
         let st = RS {
